@@ -71,7 +71,7 @@ CLAIMED = {
             "Trusted: ASCII-only Chars stubs and SmallVec->Vec rewrite for bounded_levenshtein. Outside: dictionary scan, doc_freq, scan cap, segment independence."),
     "C26": ("4.C26 / 8.5", "searchlite_search's handling of the caller's buffer (source slices: argument guard + everything after the search, composed): for "
             "capacities below, at and above the response length no byte outside the buffer is written (canary zones + CBMC pointer checks), ret = min(len, cap-1), "
-            "NUL terminated, prefix preserved; null buffer / zero capacity write nothing; null handle/query return 0; closing a null handle.",
+            "NUL terminated, prefix preserved; null buffer / zero capacity write nothing; null handle/query return 0; the argument guards of add_json / commit / index_open (source slices) return a negative status / null handle for null arguments; closing a null handle.",
             "Trusted: slice extraction (the generator refuses if the code between guard and search mentions the buffer); response modelled as an arbitrary "
             "byte string. Outside: the search itself (kani-compiler 0.68 crashes on code reachable from Index::open / search)."),
     "C30": ("4.C30", "Key-ordering kernel: CompositeKey::cmp / partial_cmp / CompositeKeyPart::cmp is a strict total order consistent with equality and with "
